@@ -967,3 +967,267 @@ def run(ctx, n_close, n_buffer, hist_len):
         ctx.branch('oracle:R16:form:' + case['form'])
         ctx.branch('oracle:R16:kind:' + case['kind'])
         g.run_oracle(ctx, 'robust.buffer', case)
+
+
+# ================================================================== correspondence streams (model at Float)
+CORR_REQUIRED = ['corr:R15:' + b for b in ('setter-close-values', 'query-close-values', 'threshold-tiny-loss',
+                                           'threshold-zero-loss-distance', 'guard-adjacent-doubles', 'large-city-switch')] + \
+                ['corr:R16:' + b for b in ('argument-buffer-refilled-in-place', 'same-object-two-roles', 'buffer:list',
+                                           'buffer:2d', 'buffer:int', 'buffer:strided', 'kind:fs', 'kind:gen', 'kind:gpp',
+                                           'kind:ps7', 'kind:oh', 'kind:ant')]
+
+
+def _neighbours(rng, v, k):
+    """k close-but-distinct neighbours of v (relative 1e-6 ... adjacent doubles)"""
+    pool = [v * (1 + 1e-6), v * (1 - 1e-6), v * (1 + 3e-9), v * (1 - 3e-9), ulp_up(v), ulp_dn(v), v * (1 + 1.3e-12),
+            v * (1 + 8e-6), v * (1 - 2e-7)]
+    rng.shuffle(pool)
+    return pool[:k]
+
+
+def _safe(o, d, nw, margin=1e-10):
+    """the deterministic loss of the CODE is not within `margin` dB of the policy threshold"""
+    return abs(float(P().det_db(o, d, nw))) > margin
+
+
+def corr_close_cases(ctx, rng, n_random):
+    """histories whose successive setter values / query arguments are close but distinct; the compiled model
+    answers for exactly those values"""
+    g = P()
+    cases = []
+    n_fixed = 0
+    for i in range(n_random + 14):
+        fixed = i < 14
+        kind = ['fs', 'ps7', 'oh', 'gen', 'gpp', 'fs', 'ps7', 'oh', 'fs', 'ps7', 'oh', 'gen', 'gpp', 'ant'][i % 14] if fixed \
+            else rng.choice(['fs', 'fs', 'ps7', 'oh', 'oh', 'gen', 'gpp', 'ant'])
+        r = (rng if not fixed else core.Rng(1000 + i, 'c13-r15-fixed'))
+        ops = [['small', 1]]
+        case = {'kind': kind, 'ctor': None, 'ops': ops}
+        try:
+            if kind == 'ant':
+                case['ctor'] = [r.choice([3, 6])]
+                for _ in range(r.randint(1, 3)):
+                    a = r.uniform(0.2, 170.0) * r.choice([1.0, -1.0])
+                    nb = _neighbours(r, a, 3)
+                    ops.pop(0) if ops and ops[0][0] == 'small' else None
+                    ops += [['g', a], ['g', nb[0]], ['ga', [a] + nb + [a]]]
+                ctx.branch('corr:R15:query-close-values')
+                cases.append(case)
+                continue
+            if kind == 'gen':
+                mode = r.below(3)
+                if mode == 0:
+                    # exactly representable tiny losses: d = 1 gives C itself
+                    C = r.choice(TINY + [1e-300, 5e-324, 2e-8]) * r.choice([1.0, -1.0]) * (1.0 if fixed else r.uniform(1.0, 9.0))
+                    case['ctor'] = [g.nice(r, r.uniform(0.5, 6.0)), C]
+                    ex = {'exact': True}
+                    ops[:] = [['small', 0], ['db', 1.0, ex], ['dba', [1.0, 10.0, 1.0], ex], ['small', 1], ['db', 1.0, ex],
+                              ['dba', [10.0, 1.0], ex], ['lin', 1.0], ['lina', [1.0, 10.0]]]
+                    ctx.branch('corr:R15:threshold-tiny-loss')
+                    cases.append(case)
+                    continue
+                n = g.nice(r, r.uniform(1.0, 4.0))
+                case['ctor'] = [n, 160.0 * n + g.nice(r, r.uniform(10.0, 100.0))] if mode == 1 else \
+                    [g.nice(r, r.uniform(0.5, 6.0)), g.nice(r, r.uniform(20.0, 150.0))]
+            o, _ = g.build({'kind': kind, 'ctor': case['ctor']})
+            o.handle_small_distances_bool = True
+            nw = r.choice([0, 0, 1, 3]) if kind == 'ps7' else None
+            lo, hi = (0.0, 5.0) if kind == 'ps7' else (-2.0, 3.0)
+
+            def q(name, *a):
+                return [name] + ([nw] if kind == 'ps7' else []) + list(a)
+            for _ in range(r.randint(2, 4)):
+                t = r.below(8)
+                if t < 3 and kind in ('fs', 'ps7', 'oh'):
+                    # ---- close setter values, each followed by queries
+                    if kind == 'fs':
+                        name = r.choice(['n', 'fc'])
+                        v = g.nice(r, r.uniform(0.3, 6.0)) if name == 'n' else g.nice(r, g.logu(r, 1.0, 5.0))
+                    elif kind == 'ps7':
+                        name, v = 'fc', g.nice(r, g.logu(r, 2.0, 5.0))
+                    else:
+                        name = r.choice(['fc', 'hbs', 'hms'])
+                        a, z = PARAM_RANGE['oh'][name]
+                        v = r.uniform(a * 1.001, z / 1.001)
+                    d = g.gen_dist(r, lo + 1.0, hi)
+                    for vv in [v] + _neighbours(r, v, r.randint(2, 4)) + [v]:
+                        g.apply_setter(o, name, vv)
+                        if not _safe(o, d, nw, 1e-6):
+                            continue
+                        ops += [[name, vv], q('db', d)]
+                    ctx.branch('corr:R15:setter-close-values')
+                elif t < 5:
+                    # ---- close query arguments (scalar and array), also tiny magnitudes
+                    d = g.gen_dist(r, lo + 1.0, hi)
+                    if kind == 'gen' and case['ctor'][1] > 150.0:
+                        d = r.choice(TINY) * r.uniform(1.0, 3.0)
+                    ds = [d] + _neighbours(r, d, r.randint(2, 4))
+                    if all(_safe(o, x, nw, 1e-6) for x in ds):
+                        ops += [q('db', x) for x in ds[:3]] + [q('dba', ds + [ds[0]])]
+                        if kind not in ('ps7', 'oh'):
+                            ops.append(['lina', ds[::-1]])
+                        else:
+                            ops += [q('lin', x) for x in ds[:2]]
+                    if kind != 'oh':
+                        p = g.nice(r, r.uniform(20.0, 220.0))
+                        ps = [p] + _neighbours(r, p, 3)
+                        ops += [q('wdb', x) for x in ps[:2]] + [q('wdba', ps)]
+                        pl = r.choice(TINY) * r.uniform(1.0, 3.0)
+                        ops += [q('wl', x) for x in [pl] + _neighbours(r, pl, 2) + [pl / 10.0]]
+                    ctx.branch('corr:R15:query-close-values')
+                elif t < 7:
+                    # ---- either side of the zero-loss distance of the object (margin from the code's own value)
+                    d0, slope = zero_loss_distance(o, nw, 10.0 ** (hi - 0.5))
+                    if d0 is None:
+                        continue
+                    rt = {'reltol': 1e-3}
+                    for delta in (1e-6, 1e-8):
+                        dn, up = d0 * (1 - delta), d0 * (1 + delta)
+                        if not (float(g.det_db(o, dn, nw)) < -1e-10 and float(g.det_db(o, up, nw)) > 1e-10):
+                            continue
+                        fl = r.below(2)
+                        ops += [['small', fl], q('db', up, rt), q('db', dn), q('dba', [up, 10.0 * d0], rt), q('dba', [dn, up]),
+                                ['small', 1 - fl], q('db', dn), q('dba', [10.0 * d0, dn, up]), ['small', 1]]
+                        if kind != 'ps7':
+                            ops += [['lin', dn], ['lin', up]]
+                        ctx.branch('corr:R15:threshold-zero-loss-distance')
+                elif kind == 'oh':
+                    if r.chance(0.5):
+                        name = r.choice(['fc', 'hbs', 'hms'])
+                        a, z = PARAM_RANGE['oh'][name]
+                        vals = [a, ulp_dn(a), ulp_up(a), a * (1 - 1e-9), a * (1 + 1e-9), z, ulp_up(z), ulp_dn(z), z * (1 + 1e-9),
+                                z * (1 - 1e-9), a - 1e-9, z + 1e-9]
+                        r.shuffle(vals)
+                        for vv in vals[:r.randint(4, 8)]:
+                            g.apply_setter(o, name, vv)
+                            ops += [[name, vv], ['db', 5.0]]
+                        ctx.branch('corr:R15:guard-adjacent-doubles')
+                    else:
+                        ops += [['area', 'large city'], ['hms', g.nice(r, r.uniform(1.0, 10.0))]]
+                        for vv in (300.0, ulp_up(300.0), ulp_dn(300.0), 300.0 * (1 + 1e-9), 300.0 * (1 - 1e-9), 300.0 + 1e-9, 300.0):
+                            ops += [['fc', vv], ['db', 5.0], ['dba', [1.0, 20.0]]]
+                        g.apply_setter(o, 'area', 'large city')
+                        g.apply_setter(o, 'fc', 300.0)
+                        ctx.branch('corr:R15:large-city-switch')
+        except core.Infra:
+            raise
+        except Exception as e:
+            g.library_exception(ctx, kind, e, {'kind': kind, 'ctor': case['ctor'], 'ops': []})
+            continue
+        if len(ops) > 1:
+            cases.append(case)
+            n_fixed += int(fixed)
+    # the fixed part always contains one scenario per decision site
+    cases.append({'kind': 'oh', 'ctor': None, 'ops': sum([[[nm, vv], ['db', 5.0]] for nm, (a, z) in sorted(PARAM_RANGE['oh'].items())
+                                                          for vv in (ulp_dn(a), a, ulp_up(a), ulp_dn(z), z, ulp_up(z))], [['small', 1]])})
+    ctx.branch('corr:R15:guard-adjacent-doubles')
+    sw = [['small', 1], ['area', 'large city']]
+    for vv in (300.0, ulp_up(300.0), ulp_dn(300.0), 300.0 * (1 + 1e-9), 300.0):
+        sw += [['fc', vv], ['db', 5.0]]
+    cases.append({'kind': 'oh', 'ctor': None, 'ops': sw})
+    ctx.branch('corr:R15:large-city-switch')
+    for C in (1e-9, -1e-9, 4e-13, -4e-13, 5e-324, -5e-324):
+        ex = {'exact': True}
+        cases.append({'kind': 'gen', 'ctor': [2.0, C], 'ops': [['small', 0], ['db', 1.0, ex], ['dba', [1.0, 10.0], ex], ['small', 1],
+                                                               ['db', 1.0, ex], ['dba', [10.0, 1.0, 1.0], ex], ['lin', 1.0]]})
+        ctx.branch('corr:R15:threshold-tiny-loss')
+    return cases
+
+
+BUF_FMTS = [{'buf': 'a'}, {'buf': 'a', 'layout': 'list'}, {'buf': 'a', 'shape': 2, 'layout': 'C'},
+            {'buf': 'a', 'shape': 2, 'layout': 'F'}, {'buf': 'a', 'dtype': 'int64'}, {'buf': 'a', 'layout': 'stride2'},
+            {'buf': 'a', 'dtype': 'float32'}]
+
+
+def corr_buffer_cases(ctx, rng, n_random):
+    """histories in which EVERY array argument of a kind is one preallocated object refilled in place; the model is
+    given the logical contents at call time"""
+    g = P()
+    cases = []
+    for i in range(n_random + 12):
+        fixed = i < 12
+        r = rng if not fixed else core.Rng(2000 + i, 'c13-r16-fixed')
+        kind = ['fs', 'gen', 'gpp', 'ps7', 'oh', 'ant', 'fs', 'ps7', 'oh', 'ps7', 'gen', 'ant'][i % 12] if fixed else \
+            r.choice(['fs', 'gen', 'gpp', 'ps7', 'ps7', 'oh', 'ant'])
+        f0 = dict(BUF_FMTS[i % len(BUF_FMTS)] if fixed else r.choice(BUF_FMTS))
+        n = r.choice([2, 4, 6])
+        if f0.get('shape') == 2:
+            f0['shape'] = [2, n // 2]
+        ints = f0.get('dtype') == 'int64'
+        f32 = f0.get('dtype') == 'float32'
+        case = {'kind': kind, 'ctor': None, 'ops': [['small', 1]]}
+        ops = case['ops']
+        try:
+            if kind == 'gen':
+                case['ctor'] = [g.nice(r, r.uniform(0.5, 5.0)), g.nice(r, r.uniform(20.0, 140.0))]
+            if kind == 'ant':
+                case['ctor'] = [r.choice([3, 6])]
+                ops.pop()
+                fa = dict(f0)
+                if fa.get('layout') == 'list':
+                    fa.pop('layout')
+                for _ in range(r.randint(2, 4)):
+                    vals = [float(r.randint(-180, 180)) if ints else g.conv_value(r.uniform(-180.0, 180.0), 'float32' if f32 else 'float64', 'angle')
+                            for _ in range(n)]
+                    ops.append(['ga', vals, dict(fa)])
+            else:
+                o, _ = g.build({'kind': kind, 'ctor': case['ctor']})
+                lo, hi = (0.0, 4.0) if kind == 'ps7' else (0.0, 2.3)
+                for k in range(r.randint(2, 4)):
+                    if kind in ('fs', 'ps7', 'oh') and r.chance(0.4):
+                        op = g.fs_setter(r) if kind == 'fs' else g.oh_setter(r) if kind == 'oh' else ['fc', g.nice(r, g.logu(r, 2.0, 5.0))]
+                        if op[0] != 'small':
+                            g.apply_setter(o, op[0], op[1])
+                            ops.append(op)
+                    vals = [10.0 ** r.uniform(lo, hi) for _ in range(n)]
+                    if ints:
+                        vals = [float(max(1, int(round(v)))) for v in vals]
+                    elif f32:
+                        vals = [float(np.float32(v)) for v in vals]
+                    elif k >= 1 and r.chance(0.3):
+                        vals[r.below(n)] = 1e-30
+                    fm = {'dtype': f0.get('dtype', 'float64')}
+                    nw = r.choice([0, 1, 2, 5])
+                    walls = nw
+                    t = r.below(6)
+                    if kind == 'ps7' and t < 2 and not f32:
+                        walls = [0 if r.chance(0.4) else r.randint(1, 6) for _ in range(n)]
+                    if not g.safe_values(o, vals, walls if kind == 'ps7' else None, fm):
+                        continue
+                    if kind == 'ps7':
+                        if isinstance(walls, list):
+                            if r.chance(0.35) and f0.get('layout') != 'list':
+                                same = [float(r.randint(1, 40)) for _ in range(n)]
+                                if g.safe_values(o, same, [int(x) for x in same], fm):
+                                    ops.append(['dbw', [int(x) for x in same], same, dict(f0, same=1)])
+                                    ctx.branch('corr:R16:same-object-two-roles')
+                            ops.append(['dbw', walls, vals, dict(f0)])
+                        elif t < 5:
+                            ops.append(['dba', nw, vals, dict(f0)])
+                        elif not f32 and f0.get('layout') != 'list':
+                            ops.append(['wdba', nw, [float(r.randint(30, 200)) if ints else g.nice(r, r.uniform(30.0, 220.0)) for _ in range(n)], dict(f0)])
+                    else:
+                        opn = 'dba' if (kind == 'oh' or t < 3) else 'lina' if t < 4 else 'wdba' if t < 5 else 'wla'
+                        if opn in ('wdba', 'wla') and (f32 or f0.get('layout') == 'list'):
+                            opn = 'dba'
+                        if opn == 'wdba':
+                            vals = [float(r.randint(30, 200)) if ints else g.nice(r, r.uniform(30.0, 220.0)) for _ in range(n)]
+                        if opn == 'wla':
+                            if ints:
+                                opn = 'dba'
+                            else:
+                                vals = [g.logu(r, -15.0, -3.0) for _ in range(n)]
+                        ops.append([opn, vals, dict(f0)])
+        except core.Infra:
+            raise
+        except Exception as e:
+            g.library_exception(ctx, kind, e, {'kind': kind, 'ctor': case['ctor'], 'ops': []})
+            continue
+        nbuf = sum(1 for op in ops if isinstance(op[-1], dict) and op[-1].get('buf'))
+        if nbuf >= 2:
+            cases.append(case)
+            ctx.branch('corr:R16:argument-buffer-refilled-in-place')
+            ctx.branch('corr:R16:kind:' + kind)
+            ctx.branch('corr:R16:buffer:' + ('list' if f0.get('layout') == 'list' else '2d' if isinstance(f0.get('shape'), list)
+                                             else 'int' if ints else 'strided' if f0.get('layout') == 'stride2' else 'plain'))
+    return cases
